@@ -38,7 +38,9 @@ def run(ctx):
     witness.run_set(ctx, "C11", ["w5_read_storage_no_insert", "w5_read_storage_no_get_mut", "w5_read_storage_no_remove", "w5_read_storage_no_entry",
                                  "w5_read_storage_no_restrict_mut", "w5_read_storage_no_channel_mut", "w5_read_storage_no_drain",
                                  "w5_read_storage_no_clear", "w5_read_storage_no_as_mut_slice", "w5_entities_not_mut",
-                                 "w5_read_storage_no_mut_join", "w5_read_storage_no_mut_lend_join", "w5_read_storage_no_mut_par_join"])
+                                 "w5_read_storage_no_mut_join", "w5_read_storage_no_mut_lend_join", "w5_read_storage_no_mut_par_join",
+                                 "w13_unsync_component_vecstorage", "w13_unsync_component_densevecstorage", "w13_unsync_component_defaultvecstorage",
+                                 "w13_unsync_component_hashmapstorage", "w13_unsync_component_btreestorage"])
 
 
 def borrows(b):
